@@ -15,9 +15,11 @@
 package meta
 
 import (
+	"bytes"
 	"context"
 	"fmt"
 	"reflect"
+	"sort"
 )
 
 var (
@@ -358,12 +360,15 @@ func write(ctx context.Context, oprot Protocol, tt *TypeMeta, gv reflect.Value) 
 		if err := oprot.WriteMapBegin(ctx, tt.KeyType.TypeID, tt.ValueType.TypeID, gv.Len()); err != nil {
 			return err
 		}
-		iter := gv.MapRange()
-		for iter.Next() {
-			if err := write(ctx, oprot, tt.KeyType, iter.Key()); err != nil {
+		keys, err := sortedMapKeys(ctx, tt.KeyType, gv)
+		if err != nil {
+			return err
+		}
+		for _, key := range keys {
+			if err := write(ctx, oprot, tt.KeyType, key); err != nil {
 				return err
 			}
-			if err := write(ctx, oprot, tt.ValueType, iter.Value()); err != nil {
+			if err := write(ctx, oprot, tt.ValueType, gv.MapIndex(key)); err != nil {
 				return err
 			}
 		}
@@ -400,4 +405,28 @@ func write(ctx context.Context, oprot Protocol, tt *TypeMeta, gv reflect.Value) 
 		panic(fmt.Errorf("invalid typeID: %d", tt.TypeID))
 	}
 	return nil
+}
+
+// sortedMapKeys returns the keys of a map ordered by their binary encoding, so that
+// the serialized form does not depend on Go's randomized map iteration order.
+func sortedMapKeys(ctx context.Context, kt *TypeMeta, gv reflect.Value) ([]reflect.Value, error) {
+	keys := gv.MapKeys()
+	encoded := make(map[int][]byte, len(keys))
+	order := make([]int, len(keys))
+	for i, key := range keys {
+		mem := new(MemoryTransport)
+		if err := write(ctx, NewBinaryProtocol(mem), kt, key); err != nil {
+			return nil, err
+		}
+		encoded[i] = mem.Bytes()
+		order[i] = i
+	}
+	sort.SliceStable(order, func(a, b int) bool {
+		return bytes.Compare(encoded[order[a]], encoded[order[b]]) < 0
+	})
+	sorted := make([]reflect.Value, len(keys))
+	for i, j := range order {
+		sorted[i] = keys[j]
+	}
+	return sorted, nil
 }
